@@ -502,8 +502,41 @@ pub fn run_w1<P: Payload>(ctx: &Ctx, cfg: &W1Cfg, index: u64, cov: &mut Cov, hoo
     } else {
         0
     };
+    // every 23rd large history starts by building a BALLAST forest of hundreds or thousands of nodes (with
+    // modelled calls, monitors off), so that the calls that follow act on an arena far above any small threshold
+    let ballast: usize = if cfg.size == Size::Large && index % 23 == 5 {
+        let sizes: [usize; 5] = if ctx.is("C02") { [258, 260, 300, 300, 520] } else { [258, 300, 520, 1100, 2100] };
+        sizes[rng.below(5)] + rng.below(20)
+    } else {
+        0
+    };
+    let mut ballast_ops: Vec<Op> = Vec::new();
+    if ballast > 0 {
+        let mut made = 0usize;
+        while made < ballast {
+            if made == 0 || rng.chance(1, 40) {
+                ballast_ops.push(Op::New); // another root
+            } else {
+                let p = if rng.chance(1, 2) { made - 1 - rng.below(made.min(6)) } else { rng.below(made) };
+                if rng.chance(3, 4) {
+                    ballast_ops.push(Op::AppendValue(p));
+                } else {
+                    ballast_ops.push(Op::New);
+                    ballast_ops.push(Op::Ins { kind: if rng.chance(1, 2) { InsKind::Prepend } else { InsKind::After }, checked: rng.chance(1, 2), t: if p == 0 { made - 1 } else { p }, x: made });
+                }
+            }
+            made += 1;
+        }
+        cov.bump("histories_on_top_of_a_ballast_forest");
+        cov.maxi("largest_ballast_forest_nodes", ballast as u64);
+    }
+    let nb = ballast_ops.len();
     let workload = format!("w1-{}-{}-{:?}-worn{}-cap{}", if tag == 1 { "small" } else { "large" }, index, persona, worn, cap0);
     let mut gen = Gen::new(cfg.gen.clone(), persona);
+    if ballast > 0 {
+        gen.cfg.max_live += ballast;
+        gen.cfg.max_slots += ballast;
+    }
     let mut st: State<P> = if worn > 0 {
         cov.bump("histories_started_on_an_arena_with_a_worn_slot");
         let mut prime_rng = Rng::derive(ctx.seed, 71, index);
@@ -515,6 +548,7 @@ pub fn run_w1<P: Payload>(ctx: &Ctx, cfg: &W1Cfg, index: u64, cov: &mut Cov, hoo
     let mut digest = Digest::default();
     let len = match cfg.size {
         Size::Small => rng.range(cfg.len / 3, cfg.len),
+        Size::Large if ballast > 0 => nb + rng.range(30, 110),
         Size::Large => rng.range(cfg.len / 2, cfg.len),
     };
     cov.histories += 1;
@@ -534,26 +568,32 @@ pub fn run_w1<P: Payload>(ctx: &Ctx, cfg: &W1Cfg, index: u64, cov: &mut Cov, hoo
     let mut blind_steps = 0usize;
     let mut old_arena: Option<Arena<P>> = None;
     for step in 0..len {
-        let op = gen.next_op(&mut rng, &st.model);
+        let in_ballast = step < nb;
+        let op = if in_ballast { ballast_ops[step].clone() } else { gen.next_op(&mut rng, &st.model) };
         ops.push(op.clone());
         ctx.beacon.current.lock().unwrap().1.push(op.clone());
         ctx.beacon.tick.fetch_add(1, Ordering::Relaxed);
         let info = st.step(&op);
         account_step(ctx, &st, &info, cov);
         digest.s(&info.outcome.text());
-        st.structure_digest(&mut digest);
+        if !in_ballast || step + 1 == nb {
+            st.structure_digest(&mut digest);
+        }
         if cfg.sample {
             outcome_log.push(format!("{} -> {}", op.to_text(), info.outcome.text()));
         }
-        let heavy = ctx.always_heavy
-            || match cfg.size {
-                Size::Small => true,
-                Size::Large => step % 8 == 7 || step + 1 == len,
-            };
+        let heavy = !in_ballast
+            && ((ctx.always_heavy && ballast == 0)
+                || match cfg.size {
+                    Size::Small => true,
+                    Size::Large => step % 8 == 7 || step + 1 == len,
+                });
         let mut fs = info.findings.clone();
-        fs.extend(monitors(ctx, &mut st, &info, heavy, &mut rng, cov, cfg.tok));
-        if !info.diverged {
-            fs.extend(hook.after_step(ctx, &mut st, &info, heavy, &mut rng, cov));
+        if !in_ballast {
+            fs.extend(monitors(ctx, &mut st, &info, heavy, &mut rng, cov, cfg.tok));
+            if !info.diverged {
+                fs.extend(hook.after_step(ctx, &mut st, &info, heavy, &mut rng, cov));
+            }
         }
         if !info.diverged && !blind && heavy && rng.chance(1, 10) && !matches!(ctx.prop, "C03" | "C04" | "C05" | "C14" | "C16" | "C17") {
             fs.extend(copy_probe(ctx, &st, old_arena.as_ref(), &mut rng, cov, cfg.tok));
@@ -826,6 +866,12 @@ pub fn w2_items(max_n: usize) -> Vec<Shape> {
 pub fn run_w3(ctx: &Ctx, nslots: usize, cycles: u64, mode: u8, cov: &mut Cov) -> Option<Violation> {
     // mode 0: plain ping-pong, 1: + remove_subtree bursts, 2: + rotating fresh companion slots (two removes),
     // 3: fresh companions and the worn-out node freed by one remove_subtree call
+    if mode == 4 {
+        return run_w3_clear(ctx, nslots, cycles, cov);
+    }
+    if mode == 5 {
+        return run_c17_sizes(ctx, nslots, cov);
+    }
     let with_subtrees = mode == 1;
     let companions = mode == 2 || mode == 3;
     use crate::payload::Plain;
@@ -1228,6 +1274,297 @@ pub fn run_w3(ctx: &Ctx, nslots: usize, cycles: u64, mode: u8, cov: &mut Cov) ->
     None
 }
 
+/// Generation churn through `clear()`: tens of thousands of (build a few nodes, look at them, clear) rounds on ONE
+/// arena.  Whatever an implementation counts per clear (an epoch, a generation for new slots) is driven past the
+/// width of the stamp here; every round must look exactly like the first one.
+pub fn run_w3_clear(ctx: &Ctx, per_gen: usize, cycles: u64, cov: &mut Cov) -> Option<Violation> {
+    use crate::payload::Plain;
+    use indextree::NodeId;
+    use std::num::NonZeroUsize;
+    let workload = format!("w3-{}slots-{}cycles-clearchurn", per_gen, cycles);
+    cov.histories += 1;
+    {
+        let mut c = ctx.beacon.current.lock().unwrap();
+        c.0 = workload.clone();
+        c.1.clear();
+    }
+    let mut arena: Arena<Plain> = Arena::new();
+    let mut digest = Digest::default();
+    let mut evals = 0u64;
+    let mut nonempty_clears = 0u64;
+    let per_gen = per_gen.max(1);
+    // Some(violation) if this check owns one of `props`, otherwise the history is abandoned
+    macro_rules! fire {
+        ($props:expr, $sig:expr, $cyc:expr, $($arg:tt)*) => {{
+            let props: &[&str] = &$props;
+            if props.iter().any(|p| ctx.is(p)) {
+                return Some(Violation {
+                    prop: ctx.prop.to_string(),
+                    sig: format!("clear-churn/{}", $sig),
+                    detail: format!("{} (round {} = after {} clear() calls on non-empty arenas, workload {})", format!($($arg)*), $cyc, nonempty_clears, workload),
+                    workload: format!("{}@{}", workload, $cyc),
+                    step: $cyc as usize,
+                    ops: Vec::new(),
+                });
+            } else {
+                Cov::inc(&mut cov.abandoned, format!("{} [clear-churn/{}]", props.join("+"), $sig));
+                return None;
+            }
+        }};
+    }
+    for cyc in 1..=cycles {
+        ctx.beacon.tick.fetch_add(1, Ordering::Relaxed);
+        let k = 1 + (cyc as usize % per_gen);
+        let full = cyc < 20 || cyc % 509 == 0 || cyc + 3 >= cycles || (32_760..32_780).contains(&nonempty_clears) || (65_530..65_545).contains(&nonempty_clears);
+        // the call-by-call comparison with a new arena is C13's own question; the other checks do not ask it
+        // (an answer they could not use would only make them abandon the history)
+        let mut fresh: Option<Arena<Plain>> = if full && ctx.is("C13") { Some(Arena::new()) } else { None };
+        let mut ids: Vec<NodeId> = Vec::with_capacity(k);
+        for j in 0..k {
+            let pay = Plain { tid: cyc * 8 + j as u64, val: j as u64 };
+            let id = match guarded(|| arena.new_node(pay.clone())) {
+                Ok(id) => id,
+                Err(p) => fire!(["C05", "C07", "C13"], "alloc-panic", cyc, "new_node panicked: {}", p),
+            };
+            if usize::from(id) != j + 1 || arena.count() != j + 1 {
+                fire!(["C07", "C13"], "slot-numbering-after-clear", cyc, "node #{} created after clear() landed at position {} (count() = {})", j + 1, usize::from(id), arena.count());
+            }
+            if ids.contains(&id) {
+                fire!(["C06", "C13"], "id-issued-twice", cyc, "two live nodes got the same id {:?}", id);
+            }
+            match guarded(|| id.is_removed(&arena)) {
+                Ok(false) => {}
+                Ok(true) => fire!(["C06", "C11", "C13"], "live-id-reports-removed", cyc, "the node just created at position {} has id {:?}, which reports is_removed() = true", j + 1, id),
+                Err(p) => fire!(["C05", "C06"], "is_removed-panic", cyc, "is_removed panicked: {}", p),
+            }
+            if let Some(f) = fresh.as_mut() {
+                let fid = f.new_node(pay);
+                if fid != id {
+                    fire!(["C13"], "ids-after-clear-differ-from-new-arena", cyc, "after clear() node #{} got id {:?}; a new arena gives {:?}", j + 1, id, fid);
+                }
+            }
+            ids.push(id);
+        }
+        if k >= 2 {
+            if let Err(p) = guarded(|| ids[0].append(ids[1], &mut arena)) {
+                fire!(["C05", "C03"], "append-panic", cyc, "append of two live nodes panicked: {}", p);
+            }
+            if let Some(f) = fresh.as_mut() {
+                ids[0].append(ids[1], f);
+            }
+        }
+        let removed: Option<usize> = if k >= 3 && cyc % 2 == 0 {
+            if let Err(p) = guarded(|| ids[2].remove(&mut arena)) {
+                fire!(["C05", "C04"], "remove-panic", cyc, "remove of a live node panicked: {}", p);
+            }
+            if let Some(f) = fresh.as_mut() {
+                ids[2].remove(f);
+            }
+            Some(2)
+        } else {
+            None
+        };
+        // ---- lookups (C11): every path, every round
+        let r = guarded(|| -> Result<(), (&'static str, String)> {
+            if arena.count() != k || arena.iter().count() != k || arena.as_slice().len() != k || arena.is_empty() {
+                return Err(("count-paths", format!("count() {} iter().count() {} as_slice().len() {} is_empty() {} with {} slots", arena.count(), arena.iter().count(), arena.as_slice().len(), arena.is_empty(), k)));
+            }
+            for (j, id) in ids.iter().enumerate() {
+                let pos = NonZeroUsize::new(j + 1).unwrap();
+                if removed == Some(j) {
+                    if arena.get_node_id_at(pos).is_some() {
+                        return Err(("id-at-removed-position", format!("get_node_id_at({}) = {:?} for a removed position", j + 1, arena.get_node_id_at(pos))));
+                    }
+                    continue;
+                }
+                if arena.get_node_id_at(pos) != Some(*id) {
+                    return Err(("get_node_id_at", format!("get_node_id_at({}) = {:?}, the live node there has id {:?}", j + 1, arena.get_node_id_at(pos), id)));
+                }
+                let slot = &arena.as_slice()[j];
+                match arena.get(*id) {
+                    Some(n) if std::ptr::eq(n, slot) => {}
+                    other => return Err(("get", format!("get({:?}) = {} instead of the node at position {}", id, if other.is_some() { "another node" } else { "None" }, j + 1))),
+                }
+                if !std::ptr::eq(&arena[*id], slot) {
+                    return Err(("index", format!("arena[{:?}] is not the node at position {}", id, j + 1)));
+                }
+                if arena.get_node_id(slot) != Some(*id) {
+                    return Err(("get_node_id", format!("get_node_id(node at position {}) = {:?}, its id is {:?}", j + 1, arena.get_node_id(slot), id)));
+                }
+                if slot.is_removed() || slot.get().tid != cyc * 8 + j as u64 {
+                    return Err(("payload", format!("the node at position {} is removed / holds another round's payload", j + 1)));
+                }
+                if full && (format!("{}", id) != format!("{}", j + 1) || usize::from(*id) != j + 1 || NonZeroUsize::from(*id) != pos) {
+                    return Err(("position-conversions", format!("Display/usize of {:?} do not give position {}", id, j + 1)));
+                }
+            }
+            if arena.get_node_id_at(NonZeroUsize::new(k + 1).unwrap()).is_some() {
+                return Err(("id-at-out-of-range", format!("get_node_id_at({}) is Some with {} slots", k + 1, k)));
+            }
+            Ok(())
+        });
+        match r {
+            Ok(Ok(())) => {}
+            Ok(Err((sig, d))) => fire!(["C11"], sig, cyc, "{}", d),
+            Err(p) => fire!(["C11", "C05"], "lookup-panic", cyc, "a lookup panicked: {}", p),
+        }
+        evals += 4 * k as u64;
+        if k >= 2 && (arena[ids[0]].first_child() != Some(ids[1]) || arena[ids[1]].parent() != Some(ids[0])) {
+            fire!(["C01", "C03"], "links", cyc, "append(a, b) did not link the two nodes");
+        }
+        if let Some(f) = fresh.as_ref() {
+            if arena != *f {
+                fire!(["C13"], "arena-after-clear-differs-from-new-arena", cyc, "the same {} calls after clear() and on a new arena give arenas that are not equal", k + 1);
+            }
+            cov.bump("rounds_compared_with_a_new_arena");
+        }
+        if ctx.is("C17") && (full || cyc % 257 == 0) {
+            digest.s(&format!("{:?}", ids));
+            digest.u(arena.count() as u64);
+            digest.u(arena.capacity() as u64);
+        }
+        // ---- clear
+        let cap = arena.capacity();
+        if let Err(p) = guarded(|| arena.clear()) {
+            fire!(["C05", "C13"], "clear-panic", cyc, "clear() panicked: {}", p);
+        }
+        nonempty_clears += 1;
+        if cyc % 7 == 0 {
+            arena.clear(); // an empty arena cleared again
+        }
+        if arena.count() != 0 || !arena.is_empty() || arena.iter().next().is_some() {
+            fire!(["C13", "C11"], "not-empty-after-clear", cyc, "count() = {} after clear()", arena.count());
+        }
+        if arena.capacity() != cap {
+            fire!(["C13"], "clear-changed-capacity", cyc, "clear() changed capacity() {} -> {}", cap, arena.capacity());
+        }
+        match guarded(|| (arena.get(ids[0]).is_some(), arena.get_node_id_at(NonZeroUsize::new(1).unwrap()).is_some())) {
+            Ok((false, false)) => {}
+            Ok((g, a)) => fire!(["C11"], "lookup-in-cleared-arena", cyc, "after clear(): get(old id).is_some() = {}, get_node_id_at(1).is_some() = {}", g, a),
+            Err(p) => fire!(["C11", "C05"], "lookup-panic", cyc, "a lookup in a cleared arena panicked: {}", p),
+        }
+        cov.distinct.insert(mix2(nonempty_clears.min(70_000) / 16, (k as u64) << 8 | removed.is_some() as u64));
+    }
+    if ctx.is("C17") {
+        cov.digests.push((workload.clone(), digest.hex()));
+    }
+    cov.calls += cycles * (per_gen as u64 + 2);
+    cov.evaluations += cycles;
+    cov.observations += evals;
+    cov.add("clear_churn_rounds", cycles);
+    cov.maxi("clear_calls_on_one_non_empty_arena", nonempty_clears);
+    if cov.samples.len() < 6 {
+        cov.samples.push(J::obj(vec![("workload", J::s(workload)), ("clear_calls_on_non_empty_arena", J::U(nonempty_clears))]));
+    }
+    None
+}
+
+/// C17 only: arenas of many sizes up to `max_nodes` (thresholds like "more than 256 slots" are where a
+/// feature-dependent fast path would sit).  Everything observable goes into one digest per size, including
+/// `capacity()` after growth, `clear()`, `reserve()` and `with_capacity()` (the allocation policy is `Vec`'s in
+/// every build, so the numbers must agree between the feature sets).
+pub fn run_c17_sizes(ctx: &Ctx, max_nodes: usize, cov: &mut Cov) -> Option<Violation> {
+    use crate::payload::Plain;
+    use indextree::NodeId;
+    let workload = format!("w3-{}slots-0cycles-sizes", max_nodes);
+    cov.histories += 1;
+    {
+        let mut c = ctx.beacon.current.lock().unwrap();
+        c.0 = workload.clone();
+        c.1.clear();
+    }
+    let mut sizes: Vec<usize> = vec![1, 2, 7, 8, 9, 31, 33, 63, 65, 127, 129, 255, 256, 257, 258, 300, 511, 513, 1000, 1025, 4097, 10_000, 65_535, 65_537, 100_000];
+    sizes.retain(|n| *n <= max_nodes);
+    let mut rng = Rng::derive(ctx.seed, 171, max_nodes as u64);
+    for n in sizes {
+        ctx.beacon.tick.fetch_add(1, Ordering::Relaxed);
+        let mut d = Digest::default();
+        let r = guarded(|| {
+            let mut a: Arena<Plain> = Arena::new();
+            let mut ids: Vec<NodeId> = Vec::with_capacity(n);
+            for i in 0..n {
+                let id = a.new_node(Plain { tid: i as u64, val: (i * 7) as u64 });
+                if i > 0 {
+                    let p = if rng.chance(1, 2) { ids[i - 1 - rng.below(i.min(5))] } else { ids[rng.below(i)] };
+                    if rng.chance(2, 3) {
+                        p.append(id, &mut a);
+                    } else {
+                        p.prepend(id, &mut a);
+                    }
+                }
+                ids.push(id);
+                if (i + 1).is_power_of_two() || i + 1 == n {
+                    d.u(a.capacity() as u64);
+                    d.u(a.count() as u64);
+                }
+            }
+            for x in ids[0].descendants(&a) {
+                d.u(usize::from(x) as u64);
+            }
+            d.s(&format!("{:?}", ids[n - 1]));
+            if n <= 5000 {
+                d.s(&format!("{}", ids[0].debug_pretty_print(&a)));
+                for e in ids[0].reverse_traverse(&a) {
+                    d.s(&format!("{:?}", e));
+                }
+            }
+            let copy = a.clone();
+            d.u(copy.capacity() as u64);
+            d.u((copy == a) as u64);
+            // free a third of it (single removals and one subtree), then see where new nodes land
+            for i in (1..n).step_by(3) {
+                if !ids[i].is_removed(&a) {
+                    ids[i].remove(&mut a);
+                }
+            }
+            if n > 4 {
+                let v = ids[n / 2];
+                if !v.is_removed(&a) {
+                    v.remove_subtree(&mut a);
+                }
+            }
+            d.u(a.iter().filter(|x| x.is_removed()).count() as u64);
+            d.u(a.capacity() as u64);
+            for i in 0..(n / 4 + 2) {
+                let id = a.new_node(Plain { tid: 1 << 30 | i as u64, val: 0 });
+                d.s(&format!("{:?}", id));
+            }
+            d.u(a.count() as u64);
+            d.u(a.capacity() as u64);
+            // clear keeps the storage; afterwards it numbers like a new arena
+            a.clear();
+            d.u(a.capacity() as u64);
+            d.u(a.count() as u64);
+            d.u(a.is_empty() as u64);
+            let first = a.new_node(Plain { tid: 5, val: 5 });
+            d.s(&format!("{:?}", first));
+            d.u(a.capacity() as u64);
+            a.reserve(n);
+            d.u(a.capacity() as u64);
+            a.clear();
+            d.u(a.capacity() as u64);
+            let w: Arena<Plain> = Arena::with_capacity(n);
+            d.u(w.capacity() as u64);
+            let mut w2: Arena<Plain> = Arena::new();
+            w2.reserve(n);
+            d.u(w2.capacity() as u64);
+            w2.clear();
+            d.u(w2.capacity() as u64);
+        });
+        if let Err(p) = r {
+            d.s("panicked");
+            d.s(&p.chars().take(80).collect::<String>());
+        }
+        cov.digests.push((format!("sizes-{}", n), d.hex()));
+        cov.evaluations += 1;
+        cov.observations += 40 + n as u64;
+        cov.calls += 3 * n as u64;
+        cov.maxi("largest_arena_in_the_size_battery", n as u64);
+        cov.distinct.insert(mix2(n as u64, 0x51));
+    }
+    None
+}
+
 /// Generation churn on a drop-counting payload: every removal must drop exactly the removed
 /// node's payload, at every generation of the slot including the last one.
 pub fn run_w3_tok(ctx: &Ctx, cycles: u64, cov: &mut Cov) -> Option<Violation> {
@@ -1532,9 +1869,13 @@ pub fn replay_ops<P: Payload>(ctx: &Ctx, ops: &[Op], cap0: usize, worn: (u32, u6
         let info = st.step(op);
         account_step(ctx, &st, &info, cov);
         let mut fs = info.findings.clone();
-        fs.extend(monitors(ctx, &mut st, &info, true, &mut rng, cov, tok));
-        if !info.diverged {
-            fs.extend(hook.after_step(ctx, &mut st, &info, true, &mut rng, cov));
+        // very long histories (a ballast forest first): the heavy monitors only over the last 200 calls
+        let watched = ops.len() <= 500 || i + 200 >= ops.len();
+        if watched {
+            fs.extend(monitors(ctx, &mut st, &info, true, &mut rng, cov, tok));
+            if !info.diverged {
+                fs.extend(hook.after_step(ctx, &mut st, &info, true, &mut rng, cov));
+            }
         }
         let raw_prop = ctx.is("C01") || ctx.is("C02") || ctx.is("C10");
         if blind {
